@@ -479,6 +479,38 @@ def _single_return(ctx, T, q):
     return f, cfg, rets
 
 
+def session_key_chain(ctx: Context, rule: str, T=None, fexpand=None) -> None:
+    """S bytes = PAD384(S) and K = H(PAD384(S)), cached only by get_session_key_bytes.  Part of C02.T2; C03.K1 runs the
+    same three obligations under its own id, because the M5 request C03.T1 compares takes `get_session_key_bytes()` as
+    given: a K a conformant accessory does not compute makes it reject the controller's M3/M5."""
+    ck = ctx.ck
+    T = T or _terms(ctx)
+    fexpand = fexpand or make_expander(ctx, T)
+
+    def expect(q, want, what, pick=None):
+        f, cfg, rets = _single_return(ctx, T, q)
+        got = [_norm(strip_sites(T.of(cfg, r, r.exprs[0]))) for r in rets]
+        ok = len(got) == 1 and fexpand(got[0]) in [fexpand(_norm(w)) for w in (want if isinstance(want, list) else [want])]
+        ck.check(rule, ok, what, f"{ctx.fkey(f)}:formula", f"{f.qualname.split('.')[-2]}.{f.name} computes {[show(g, 300) for g in got]}; specification: {what}", f.loc())
+
+    expect(f"{SRP}.get_shared_secret_bytes", [call(PAD, call(TBA2, meth("get_shared_secret")), KLEN), call(PAD, call(TBA, meth("get_shared_secret")), KLEN)], "S bytes = PAD384(S)")
+    # K = H(PAD(S)): the value cached and returned
+    f = ctx.func(f"{SRP}.get_session_key_bytes")
+    cfg = ctx.cfg(f.qualname)
+    ws = [(n, strip_sites(T.of(cfg, n, n.ast.value))) for n in cfg.nodes if n.kind == "stmt" and isinstance(n.ast, ast.Assign) and any(_u(tg_) == "self._session_key" for tg_ in n.ast.targets)]
+    rets = [strip_sites(T.of(cfg, n, n.exprs[0])) for n in cfg.nodes if n.kind == "return" and n.exprs]
+    k_t = meth("digest", meth("get_shared_secret_bytes"))
+    def alts(t):
+        return [a for x in t[1] for a in alts(x)] if t[0] == "phi" else [t]
+
+    # the cached value or the freshly computed one, through any arrangement of temporaries / branches
+    ok = (ws and all(a == k_t for w in ws for a in alts(w[1])) and all(a in (S("_session_key"), k_t) for r in rets for a in alts(r))) or (not ws and rets == [k_t])
+    ck.check(rule, bool(ok), "K = H(PAD384(S))", f"{ctx.fkey(f)}:formula", f"get_session_key_bytes computes {[show(w[1], 120) for w in ws] or [show(r, 120) for r in rets]}", f.loc())
+    other = [g.qualname for cn in (SRP, CLI) for g in ctx.prog.cls(cn).methods.values() if g.qualname != f.qualname and g.name != "__init__"
+             for x in walk_own(g.node) if isinstance(x, ast.Assign) and _u(x.targets[0]) == "self._session_key"]
+    ck.check(rule, not other, "the cached session key is written only by get_session_key_bytes", f"{SRP}:session-key-writers", f"_session_key is also written by {other}", f.loc())
+
+
 def _t2(ctx: Context) -> None:
     ck = ctx.ck
     T = _terms(ctx)
@@ -503,22 +535,7 @@ def _t2(ctx: Context) -> None:
     # the base may be reduced mod N first: pow(b, e, N) == pow(b % N, e, N) for the non-negative exponent a + u*x
     s_term_red = call(("glob", "pow"), ("binop", "Mod", ("binop", "Sub", S("B"), ("binop", "Mult", k_t0, v)), S("n")), ("add", (S("a"), ("binop", "Mult", u, x_t))), S("n"))
     expect(f"{CLI}.get_shared_secret", [s_term, s_term_red], "S = pow(B - k*pow(g, x, N), a + u*x, N)")
-    expect(f"{SRP}.get_shared_secret_bytes", [call(PAD, call(TBA2, meth("get_shared_secret")), KLEN), call(PAD, call(TBA, meth("get_shared_secret")), KLEN)], "S bytes = PAD384(S)")
-    # K = H(PAD(S)): the value cached and returned
-    f = ctx.func(f"{SRP}.get_session_key_bytes")
-    cfg = ctx.cfg(f.qualname)
-    ws = [(n, strip_sites(T.of(cfg, n, n.ast.value))) for n in cfg.nodes if n.kind == "stmt" and isinstance(n.ast, ast.Assign) and any(_u(tg_) == "self._session_key" for tg_ in n.ast.targets)]
-    rets = [strip_sites(T.of(cfg, n, n.exprs[0])) for n in cfg.nodes if n.kind == "return" and n.exprs]
-    k_t = meth("digest", meth("get_shared_secret_bytes"))
-    def alts(t):
-        return [a for x in t[1] for a in alts(x)] if t[0] == "phi" else [t]
-
-    # the cached value or the freshly computed one, through any arrangement of temporaries / branches
-    ok = (ws and all(a == k_t for w in ws for a in alts(w[1])) and all(a in (S("_session_key"), k_t) for r in rets for a in alts(r))) or (not ws and rets == [k_t])
-    ck.check("C02.T2", bool(ok), "K = H(PAD384(S))", f"{ctx.fkey(f)}:formula", f"get_session_key_bytes computes {[show(w[1], 120) for w in ws] or [show(r, 120) for r in rets]}", f.loc())
-    other = [g.qualname for cn in (SRP, CLI) for g in ctx.prog.cls(cn).methods.values() if g.qualname != f.qualname and g.name != "__init__"
-             for x in walk_own(g.node) if isinstance(x, ast.Assign) and _u(x.targets[0]) == "self._session_key"]
-    ck.check("C02.T2", not other, "the cached session key is written only by get_session_key_bytes", f"{SRP}:session-key-writers", f"_session_key is also written by {other}", f.loc())
+    session_key_chain(ctx, "C02.T2", T, fexpand)
     K = meth("get_session_key_bytes")
     expect(f"{CLI}.get_proof_bytes", meth("digest", S("hGroup"), S("hu"), S("salt_b"), S("A_b"), S("B_b"), K), "M1 = H(H_GROUP | H(user) | salt_b | A_b | B_b | K)")
     m_param = ctx.func(f"{CLI}.verify_servers_proof").pos_params[1]
